@@ -91,7 +91,10 @@ def judge(chk, sc, o):
             # known: the task is lost in the dequeue window (and what the victim took is never acknowledged, so joining blocks)
             chk.violation('apply_death_isolated', case, {'stuck': o['stuck'], 'injected': o.get('injected')}, 'at most the one task the dead worker was running fails',
                           input_class='apply_death_dequeue_window')
-        elif sc['ops'][0]['op'] == 'apply_batch' and ph == 'pill_taken' and sc['ops'][(o.get('injected') or {}).get('opi', 0)]['op'] == 'stop_and_join':
+        elif sc['ops'][0]['op'] == 'apply_batch' and sc['ops'][(o.get('injected') or {}).get('opi', 0)]['op'] == 'stop_and_join' and \
+                (ph == 'pill_taken' or (ph == 'acked' and (o.get('injected') or {}).get('exit_phase') == 'pill')):
+            # the victim had taken its poison pill (acknowledged or not) and had not marked itself dead yet: it is replaced, and the
+            # replacement never gets a pill
             chk.violation('apply_death_isolated', case, {'stuck': o['stuck'], 'injected': o.get('injected')}, 'joining the pool ends although a worker died while it was being stopped',
                           input_class='apply_death_taking_poison_pill')
         elif sc['ops'][0]['op'] == 'apply_batch' and ph == 'results_sent':
@@ -307,6 +310,14 @@ def run(chk):
         cls = judge(chk, sc, o)
         chk.count('corpus (minimised past failures, run first)', key=key_of(sc) + str(sc.get('inject')), nontrivial=True, sample={'scenario': sc, 'outcome': cls})
     bases = base_scenarios(rng, 7 if chk.tier == 'quick' else 84)
+    # an apply pool whose caller is slow right after it started the workers: the first task is not registered yet when a worker that
+    # has already announced itself dies
+    for _ in range(1 if chk.tier == 'quick' else 4):
+        k = rng.randint(2, 4)
+        bases.append({'seed': rng.randint(0, 10 ** 6), 'pool': {'n_jobs': rng.choice([1, 2]), 'start_method': 'fork'}, 'judge_op': 0, 'same_func': True,
+                      'ops': [{'op': 'apply_batch', 'tasks': [{'idx': i} for i in range(k)], 'dur': {'kind': 'map', 'map': {}, 'default': 0.02}, 'get_timeout': 30,
+                               'init': rng.random() < .5, 'init_dur': 0.02}, {'op': 'stop_and_join'}],
+                      'rules': [{'role': 'main', 'op': 'start', 'obj': None, 'sleep': rng.choice([0.05, 0.2]), 'p': 1.0}]})
     # a worker_exit that takes a while on one worker: the crash points inside it and between its return and the delivery of its
     # result (the exit results of a call that then completes must be complete)
     for _ in range(1 if chk.tier == 'quick' else 6):
